@@ -48,9 +48,21 @@ type c13Doc struct {
 	RoleTo  string   `json:"role_to,omitempty"`
 	Role    string   `json:"role,omitempty"` // "role:<name>"
 	Writes  int      `json:"writes"`
+	Seq     uint64   `json:"seq"` // database sequence of the current revision (one sequence per write: batching is suspended)
 }
 
 func (d *c13Doc) live() bool { return d.Exists && !d.Deleted }
+
+// c13Star is the all-documents channel: every live document is in it, no document lists it.
+const c13Star = "*"
+
+// inCh: the channels a live document is in, including the all-documents channel.
+func (d *c13Doc) inCh() []string {
+	if !d.live() {
+		return nil
+	}
+	return append(append([]string{}, d.Ch...), c13Star)
+}
 
 type c13Role struct {
 	Exists bool            `json:"exists"`
@@ -146,7 +158,7 @@ func (m *c13Model) docSources(d *c13Doc) []string {
 	if !d.live() {
 		return nil
 	}
-	for _, c := range d.Ch {
+	for _, c := range d.inCh() {
 		for _, s := range m.chanSources(c) {
 			set[s] = true
 		}
@@ -251,27 +263,33 @@ type c13Env struct {
 
 	user  string
 	chans []string
+	allCh []string // chans + the all-documents channel
 	m     *c13Model
 	ops   []c13Op
 
-	cl   *c13Client
-	blip *c13BlipSession // nil in the rest part
+	cl     *c13Client
+	blip   *c13BlipSession // nil in the rest part (and between two pulls)
+	blipV4 bool
 
 	// per-history feature bookkeeping (between two pulls)
 	roleDeletedSincePull bool
 	flapSincePull        bool
 	opsSincePull         int
 	sawSkipped           bool
+	violated             bool
 	sawAnnouncement      bool // history observed >= 1 revoked/removed/deleted/backfill row
 	stop                 bool // history abandoned (inconclusive)
 	rowsByDoc            map[string][]string
 	lostCh               map[string]bool // channels the user did not hold at some moment since the previous pull
 	grantChanged         map[string]bool // channels whose set of grants (who grants it, through what) changed since the previous pull
 	grantBase            map[string]string
-	rolesDeleted         map[string]bool // roles deleted since the previous pull ...
-	rolesRecreated       map[string]bool // ... and created again since
-	rolesCreated         map[string]bool // roles created (PUT answered 201) since the previous pull
-	roleLost             map[string]bool // roles the user did not hold at some moment since the previous pull
+	rolesDeleted         map[string]bool   // roles deleted since the previous pull ...
+	rolesRecreated       map[string]bool   // ... and created again since
+	rolesCreated         map[string]bool   // roles created (PUT answered 201) since the previous pull
+	roleLost             map[string]bool   // roles the user did not hold at some moment since the previous pull
+	lostSeq              map[string]uint64 // database sequence after the operation at which a channel was first found not held
+	gainedSeq            map[string]uint64 // ... at which a channel not held before was last found held again
+	heldPrev             map[string]bool
 }
 
 // track is called after every change of the model: it records what happened between two pulls.
@@ -280,19 +298,32 @@ func (e *c13Env) track() {
 		e.lostCh, e.rolesDeleted, e.rolesRecreated, e.rolesCreated = map[string]bool{}, map[string]bool{}, map[string]bool{}, map[string]bool{}
 		e.grantChanged, e.grantBase = map[string]bool{}, map[string]string{}
 		e.roleLost = map[string]bool{}
-		for _, c := range e.chans {
+		e.lostSeq, e.gainedSeq, e.heldPrev = map[string]uint64{}, map[string]uint64{}, map[string]bool{}
+		for _, c := range e.allCh {
 			e.grantBase[c] = e.m.grantKey(c)
+			e.heldPrev[c] = len(e.m.chanSources(c)) > 0
 		}
+	}
+	var seqNow uint64
+	if n := len(e.ops); n > 0 {
+		seqNow = e.ops[n-1].Seq
 	}
 	for _, r := range e.m.RoleNames {
 		if len(e.m.roleMemberships(r)) == 0 {
 			e.roleLost[r] = true
 		}
 	}
-	for _, c := range e.chans {
-		if len(e.m.chanSources(c)) == 0 {
+	for _, c := range e.allCh {
+		heldNow := len(e.m.chanSources(c)) > 0
+		if !heldNow {
+			if !e.lostCh[c] {
+				e.lostSeq[c] = seqNow
+			}
 			e.lostCh[c] = true
+		} else if !e.heldPrev[c] {
+			e.gainedSeq[c] = seqNow
 		}
+		e.heldPrev[c] = heldNow
 		if e.m.grantKey(c) != e.grantBase[c] {
 			e.grantChanged[c] = true
 		}
@@ -459,6 +490,7 @@ func (e *c13Env) writeDoc(d *c13Doc, kind string) {
 	d.Exists, d.Deleted = true, false
 	d.Rev, _ = out["rev"].(string)
 	d.CV, _ = out["cv"].(string)
+	d.Seq = e.ops[len(e.ops)-1].Seq
 	e.track()
 }
 
@@ -470,6 +502,7 @@ func (e *c13Env) deleteDoc(d *c13Doc) {
 	d.Deleted = true
 	d.Rev, _ = out["rev"].(string)
 	d.CV, _ = out["cv"].(string)
+	d.Seq = e.ops[len(e.ops)-1].Seq
 	// a tombstone written through the REST API has an empty body: no channels, no grants
 	d.Ch, d.GrantTo, d.GrantCh, d.RoleTo, d.Role = nil, "", nil, "", ""
 	e.track()
@@ -489,6 +522,16 @@ func (e *c13Env) randChans(r *vlib.Rand, min, max int) []string {
 	return out
 }
 
+// randGrantChans: channels for an admin or sync-function grant; now and then the all-documents channel.
+func (e *c13Env) randGrantChans(r *vlib.Rand, min, max, starIn int) []string {
+	out := e.randChans(r, min, max)
+	if r.Chance(1, starIn) {
+		out = append(out, c13Star)
+		sort.Strings(out)
+	}
+	return out
+}
+
 func (e *c13Env) randGrants(r *vlib.Rand, d *c13Doc) {
 	d.GrantTo, d.GrantCh, d.RoleTo, d.Role = "", nil, "", ""
 	if r.Chance(2, 5) {
@@ -498,7 +541,7 @@ func (e *c13Env) randGrants(r *vlib.Rand, d *c13Doc) {
 		default:
 			d.GrantTo = "role:" + vlib.Pick(r, e.m.RoleNames)
 		}
-		d.GrantCh = e.randChans(r, 1, 2)
+		d.GrantCh = e.randGrantChans(r, 1, 2, 10)
 	}
 	if r.Chance(1, 4) {
 		d.RoleTo = e.user
@@ -510,6 +553,7 @@ func (e *c13Env) setup(r *vlib.Rand) {
 	pfx := fmt.Sprintf("h%d", e.idx)
 	e.user = pfx + "u"
 	e.chans = []string{pfx + "A", pfx + "B", pfx + "C"}
+	e.allCh = append(append([]string{}, e.chans...), c13Star)
 	e.m = &c13Model{User: e.user, UserCh: map[string]bool{}, UserRoles: map[string]bool{}, Roles: map[string]*c13Role{}}
 	e.m.RoleNames = []string{pfx + "r1", pfx + "r2"}
 	for _, rn := range e.m.RoleNames {
@@ -522,13 +566,13 @@ func (e *c13Env) setup(r *vlib.Rand) {
 	for i, rn := range e.m.RoleNames {
 		if i == 0 || r.Bool() {
 			e.m.Roles[rn].Exists = true
-			for _, c := range e.randChans(r, 0, 2) {
+			for _, c := range e.randGrantChans(r, 0, 2, 10) {
 				e.m.Roles[rn].Ch[c] = true
 			}
 			e.putRole(rn)
 		}
 	}
-	for _, c := range e.randChans(r, 0, 2) {
+	for _, c := range e.randGrantChans(r, 0, 2, 8) {
 		e.m.UserCh[c] = true
 	}
 	for _, rn := range e.m.RoleNames {
@@ -575,7 +619,7 @@ func (e *c13Env) randomOp(r *vlib.Rand) {
 		}
 	case x < 56: // user admin channels
 		e.m.UserCh = map[string]bool{}
-		for _, c := range e.randChans(r, 0, 2) {
+		for _, c := range e.randGrantChans(r, 0, 2, 8) {
 			e.m.UserCh[c] = true
 		}
 		e.putUser(false)
@@ -591,7 +635,7 @@ func (e *c13Env) randomOp(r *vlib.Rand) {
 		rn := vlib.Pick(r, e.m.RoleNames)
 		e.m.Roles[rn].Exists = true
 		e.m.Roles[rn].Ch = map[string]bool{}
-		for _, c := range e.randChans(r, 0, 2) {
+		for _, c := range e.randGrantChans(r, 0, 2, 10) {
 			e.m.Roles[rn].Ch[c] = true
 		}
 		e.putRole(rn)
@@ -601,7 +645,7 @@ func (e *c13Env) randomOp(r *vlib.Rand) {
 			e.deleteRole(rn)
 		} else {
 			e.m.Roles[rn].Exists = true
-			for _, c := range e.randChans(r, 1, 2) {
+			for _, c := range e.randGrantChans(r, 1, 2, 10) {
 				e.m.Roles[rn].Ch[c] = true
 			}
 			e.putRole(rn)
@@ -814,6 +858,10 @@ type c13PullObs struct {
 	Pages   int
 	// Resumed: kinds of the rows whose sequence was used as the since value of a following page (paged pulls)
 	Resumed map[string]bool
+	// ResumeTokens: the since values taken from a revocation row
+	ResumeTokens []string
+	// TriggeredTokens: every since value with a triggered-by part that a following page resumed from
+	TriggeredTokens []string
 }
 
 // restPull runs one complete pull of the REST client model. limit 0: one request; otherwise pages of `limit`
@@ -840,6 +888,12 @@ func (e *c13Env) restPull(limit int) (*c13PullObs, bool) {
 		n := 0
 		for _, row := range cr.Results {
 			if strings.HasPrefix(row.ID, "_user/") || strings.HasPrefix(row.ID, "_role/") {
+				continue
+			}
+			if !e.ownDoc(row.ID) {
+				// a user holding the all-documents channel also sees the documents of the other histories that
+				// share this database: they are not part of this history's replica
+				e.run.Count("rows_of_other_histories_ignored", 1)
 				continue
 			}
 			n++
@@ -890,6 +944,12 @@ func (e *c13Env) restPull(limit int) (*c13PullObs, bool) {
 			}
 			if len(rows) > 0 && rows[len(rows)-1].Seq == cr.LastSeq {
 				obs.Resumed[c13RowKind(rows[len(rows)-1])] = true
+				if rows[len(rows)-1].Revoked {
+					obs.ResumeTokens = append(obs.ResumeTokens, cr.LastSeq)
+				}
+			}
+			if t, _ := c13Token(cr.LastSeq); t != 0 {
+				obs.TriggeredTokens = append(obs.TriggeredTokens, cr.LastSeq)
 			} else {
 				obs.Resumed["user-row"] = true
 			}
@@ -954,14 +1014,51 @@ func c13RowKind(ro c13RowObs) string {
 	}
 }
 
+// c13Token splits a sequence token "S", "T:S", "L::S", "L:T:S" into its triggered-by and sequence parts.
+func c13Token(tok string) (trig, seq uint64) {
+	parts := strings.Split(tok, ":")
+	n := len(parts)
+	seq, _ = strconv.ParseUint(parts[n-1], 10, 64)
+	if n >= 2 {
+		trig, _ = strconv.ParseUint(parts[n-2], 10, 64)
+	}
+	return trig, seq
+}
+
+// pagedShape recognises, for one failing document, the two ways in which resuming a paged pull from the sequence
+// of a revocation row loses rows. evSeq is the database sequence of the event whose announcement is missing
+// (the document's own sequence, or the sequence at which the channel concerned was lost / granted).
+func (e *c13Env) pagedShape(obs *c13PullObs, docSeq, evSeq uint64, staleDoc bool) string {
+	for _, tok := range obs.ResumeTokens {
+		if trig, seq := c13Token(tok); trig == 0 && evSeq > 0 && evSeq < seq {
+			// the revocation row concerned a document written after the revocation: it is numbered by the
+			// document's plain sequence, later than positions of the same feed that were not sent yet
+			return "paged-pull|resumed-from-revocation-row-numbered-later-than-unsent-positions"
+		}
+	}
+	for _, tok := range obs.TriggeredTokens {
+		if _, seq := c13Token(tok); staleDoc && docSeq > seq {
+			// resumed at T:S where T is (also) a revocation: the client's real since is forgotten (T-1 is assumed)
+			return "paged-pull|resumed-inside-a-revocation|document-written-after-the-resume-position"
+		}
+	}
+	if len(obs.ResumeTokens) > 0 {
+		// resumed from the sequence of a revocation row, lost position not identified further
+		return "paged-pull|resumed-from-a-revocation-row"
+	}
+	return ""
+}
+
 // classifyStale recognises the history shapes behind "the client keeps a document that left the user's view":
-// one signature per shape, whatever the grant sources, paging and document kind were.
-func (e *c13Env) classifyStale(d *c13Doc, last, now *c13Snap) string {
+// one signature per root cause. Every test is about the failing document and the channels through which the
+// client held it - not about the history as a whole.
+func (e *c13Env) classifyStale(d *c13Doc, last, now *c13Snap, obs *c13PullObs) string {
 	if last == nil || !last.Visible[d.ID] {
-		return ""
+		// obtained and lost within this (paged) pull
+		return e.pagedShape(obs, d.Seq, d.Seq, true)
 	}
 	var held []string // channels through which the client held the document at the previous pull
-	for _, c := range last.Ch[d.ID] {
+	for _, c := range append(append([]string{}, last.Ch[d.ID]...), c13Star) {
 		if c13Has(last.UserCh, c) {
 			held = append(held, c)
 		}
@@ -969,54 +1066,96 @@ func (e *c13Env) classifyStale(d *c13Doc, last, now *c13Snap) string {
 	if len(held) == 0 {
 		return ""
 	}
+	leftCh := func(c string) bool { // the document is no longer in channel c
+		if c == c13Star {
+			return !d.live()
+		}
+		return !d.live() || !c13Has(d.Ch, c)
+	}
 	for _, c := range held {
-		if c13Has(now.UserCh, c) && e.lostCh[c] {
+		if c13Has(now.UserCh, c) && e.lostCh[c] && leftCh(c) {
 			// the user holds the channel at both pulls but not all the time in between, and the document left it
 			return "channel-lost-and-regranted-between-pulls|document-left-the-channel-meanwhile"
 		}
 	}
 	for _, c := range held {
-		if c13Has(now.UserCh, c) && e.grantChanged[c] {
+		if c13Has(now.UserCh, c) && e.grantChanged[c] && leftCh(c) {
 			// the user holds the channel all the time, but through other grants than at the previous pull
 			return "channel-held-throughout-but-grants-changed-between-pulls|document-left-the-channel-meanwhile"
 		}
 	}
-	allDeleted, recreated := true, false
+	if d.Exists && d.Deleted && c13Has(now.UserCh, c13Star) && (!c13Has(last.UserCh, c13Star) || e.lostCh[c13Star] || e.grantChanged[c13Star]) {
+		// the tombstone counts as visible through "*" (so no revocation), and the back-fill of "*" omits deletions
+		return "all-documents-channel-granted-between-pulls|document-deleted-meanwhile"
+	}
+	if len(held) == 1 && held[0] == c13Star && len(last.Ch[d.ID]) == 0 && !c13Has(now.UserCh, c13Star) {
+		// a document that was in no channel is in "*" only; for that time it has no channel history to compare the
+		// revocation with (needed as soon as its sequence is later than the sequence part of the client's since)
+		return "held-through-all-documents-channel-only|channel-less-document-has-no-channel-history-for-the-revocation-check"
+	}
+	// held only through roles from here on
+	onlyRoles := true
 	for _, c := range held {
 		if last.ChanDirect[c] || len(last.ChanRoles[c]) == 0 {
-			allDeleted = false
-		}
-		for _, r := range last.ChanRoles[c] {
-			if !e.rolesDeleted[r] {
-				allDeleted = false
-			}
-			if e.rolesRecreated[r] {
-				recreated = true
-			}
+			onlyRoles = false
 		}
 	}
-	if allDeleted {
+	if onlyRoles {
+		recreated, flapped := true, true
+		for _, c := range held {
+			for _, r := range last.ChanRoles[c] {
+				if !(e.rolesDeleted[r] && e.rolesRecreated[r]) {
+					recreated = false
+				}
+				if !(e.roleLost[r] && len(e.m.roleMemberships(r)) > 0) {
+					flapped = false
+				}
+			}
+		}
 		if recreated {
 			return "channel-held-through-role|role-deleted-and-created-again-between-pulls"
 		}
-		return "channel-held-through-role|role-deleted"
-	}
-	// held only through roles the user lost and holds again now, while the role stopped granting the channel
-	flapped := true
-	for _, c := range held {
-		if last.ChanDirect[c] || len(last.ChanRoles[c]) == 0 {
-			flapped = false
+		if flapped && last.Rev[d.ID] != d.Rev {
+			// the user lost the role and holds it again (no principal rebuild in between records the gap), the
+			// role stopped granting the channel (or was deleted), and the document was written after the pull
+			return "channel-held-through-role|role-lost-and-held-again-between-pulls|role-stopped-granting-the-channel-meanwhile"
 		}
-		for _, r := range last.ChanRoles[c] {
-			if !e.roleLost[r] || len(e.m.roleMemberships(r)) == 0 || e.m.Roles[r] == nil || !e.m.Roles[r].Exists {
-				flapped = false
+	}
+	var lost uint64
+	for _, c := range held {
+		if s := e.lostSeq[c]; s > lost {
+			lost = s
+		}
+	}
+	if shape := e.pagedShape(obs, d.Seq, lost, true); shape != "" {
+		return shape
+	}
+	if onlyRoles {
+		all := true
+		for _, c := range held {
+			for _, r := range last.ChanRoles[c] {
+				if !e.rolesDeleted[r] {
+					all = false
+				}
 			}
 		}
-	}
-	if flapped {
-		return "channel-held-through-role|role-lost-and-held-again-between-pulls|role-stopped-granting-the-channel-meanwhile"
+		if all {
+			return "channel-held-through-role|role-deleted" // fixed in 641b1c8: not expected on the current tree
+		}
 	}
 	return ""
+}
+
+// missingEventSeq: the position whose row would have delivered a now visible document: the document's own
+// write, or - for a document made visible by a grant - the earliest grant since the previous pull of a channel it is in.
+func (e *c13Env) missingEventSeq(d *c13Doc, now *c13Snap) uint64 {
+	ev := d.Seq
+	for _, c := range d.inCh() {
+		if g := e.gainedSeq[c]; c13Has(now.UserCh, c) && g > 0 && g > ev {
+			ev = g
+		}
+	}
+	return ev
 }
 
 // classifyMissing recognises the history shapes behind "the user can see a document the client does not hold".
@@ -1027,7 +1166,7 @@ func (e *c13Env) classifyMissing(d *c13Doc, last, now *c13Snap) string {
 	// newly visible: are all its channels reached only through roles created since the previous pull, with a
 	// sync-function grant (access() to the role or role() to the user) older than the role involved?
 	all, any, viaDoc := true, false, false
-	for _, c := range d.Ch {
+	for _, c := range d.inCh() {
 		if !c13Has(now.UserCh, c) {
 			continue
 		}
@@ -1052,6 +1191,16 @@ func (e *c13Env) classifyMissing(d *c13Doc, last, now *c13Snap) string {
 		return "access-through-role-created-since-previous-pull|role-or-its-channel-granted-by-an-older-document"
 	}
 	return ""
+}
+
+// ownDoc: is this one of the history's four documents?
+func (e *c13Env) ownDoc(id string) bool {
+	for _, d := range e.m.Docs {
+		if d.ID == id {
+			return true
+		}
+	}
+	return false
 }
 
 // c13Through coarsens a list of grant sources to "direct", "role", "direct+role" (or "none").
@@ -1118,7 +1267,7 @@ func (e *c13Env) judge(obs *c13PullObs, limit int) {
 		}
 	}
 	since := "simple"
-	now := m.snap(e.chans)
+	now := m.snap(e.allCh)
 	last := cl.Last
 
 	// feature counters: what happened between the previous pull and this one
@@ -1155,6 +1304,11 @@ func (e *c13Env) judge(obs *c13PullObs, limit int) {
 			run.Count("pulls_after_loss_and_regrant", 1)
 		}
 	}
+	if c13Has(now.UserCh, c13Star) {
+		run.Count("pulls_holding_all_documents_channel", 1)
+	} else if last != nil && c13Has(last.UserCh, c13Star) {
+		run.Count("pulls_after_losing_all_documents_channel", 1)
+	}
 	for _, d := range m.Docs {
 		if len(now.Sources[d.ID]) >= 2 {
 			run.Count("docs_visible_through_several_sources", 1)
@@ -1180,8 +1334,8 @@ func (e *c13Env) judge(obs *c13PullObs, limit int) {
 			sig := fmt.Sprintf("C13|%s|visible-document-missing-after-pull|unclassified|%s|doc=%s|through=%s|limit=%s", e.proto(), prev, kind, c13Through(now.Sources[d.ID]), lim)
 			if shape := e.classifyMissing(d, last, now); shape != "" {
 				sig = fmt.Sprintf("C13|%s|visible-document-missing-after-pull|%s", e.proto(), shape)
-			} else if obs.Resumed["revoked"] {
-				sig = fmt.Sprintf("C13|%s|visible-document-missing-after-pull|paged-pull-resumed-from-the-sequence-of-a-revocation-row", e.proto())
+			} else if shape := e.pagedShape(obs, d.Seq, e.missingEventSeq(d, now), false); shape != "" {
+				sig = fmt.Sprintf("C13|%s|visible-document-missing-after-pull|%s", e.proto(), shape)
 			}
 			e.violation("replica-equals-visible-set", sig, fmt.Sprintf("history %d: after the pull the user can see %s (rev %s, channels %v, via %v) but the client does not hold it (rows received for it in this pull: %s)", e.idx, d.ID, want, d.Ch, now.Sources[d.ID], e.rowsFor(d.ID)), e.witness(extra()))
 		case !now.Visible[d.ID] && has:
@@ -1190,16 +1344,14 @@ func (e *c13Env) judge(obs *c13PullObs, limit int) {
 				lostVia = c13Through(last.Sources[d.ID])
 			}
 			sig := fmt.Sprintf("C13|%s|document-left-view-without-removal-or-revocation|unclassified|doc=%s|held-through=%s|limit=%s", e.proto(), kind, lostVia, lim)
-			if shape := e.classifyStale(d, last, now); shape != "" {
+			if shape := e.classifyStale(d, last, now, obs); shape != "" {
 				sig = fmt.Sprintf("C13|%s|document-left-view-without-removal-or-revocation|%s", e.proto(), shape)
-			} else if obs.Resumed["revoked"] {
-				sig = fmt.Sprintf("C13|%s|document-left-view-without-removal-or-revocation|paged-pull-resumed-from-the-sequence-of-a-revocation-row", e.proto())
 			}
 			e.violation("replica-equals-visible-set", sig, fmt.Sprintf("history %d: the user cannot see %s any more (deleted=%v channels=%v user channels=%v) but the client still holds rev %s: it was silently dropped (rows received for it in this pull: %s)", e.idx, d.ID, d.Exists && d.Deleted, d.Ch, now.UserCh, held, e.rowsFor(d.ID)), e.witness(extra()))
 		case now.Visible[d.ID] && has && held != want:
 			sig := fmt.Sprintf("C13|%s|stale-revision-held-after-pull|unclassified|doc=%s|through=%s|limit=%s", e.proto(), kind, c13Through(now.Sources[d.ID]), lim)
-			if obs.Resumed["revoked"] {
-				sig = fmt.Sprintf("C13|%s|stale-revision-held-after-pull|paged-pull-resumed-from-the-sequence-of-a-revocation-row", e.proto())
+			if shape := e.pagedShape(obs, d.Seq, d.Seq, false); shape != "" {
+				sig = fmt.Sprintf("C13|%s|stale-revision-held-after-pull|%s", e.proto(), shape)
 			}
 			e.violation("replica-equals-visible-set", sig, fmt.Sprintf("history %d: the client holds %s of %s, current is %s", e.idx, held, d.ID, want), e.witness(extra()))
 		}
@@ -1234,6 +1386,7 @@ func (e *c13Env) judge(obs *c13PullObs, limit int) {
 	cl.Pulls++
 	e.roleDeletedSincePull, e.flapSincePull, e.opsSincePull = false, false, 0
 	e.lostCh, e.rolesDeleted, e.rolesRecreated, e.rolesCreated, e.grantChanged, e.grantBase, e.roleLost = nil, nil, nil, nil, nil, nil, nil
+	e.lostSeq, e.gainedSeq, e.heldPrev = nil, nil, nil
 	e.track()
 }
 
@@ -1241,12 +1394,12 @@ func (e *c13Env) judge(obs *c13PullObs, limit int) {
 // repeat the finding.
 func (e *c13Env) violation(oracle, sig, msg string, witness any) {
 	e.run.Violation(oracle, sig, msg, witness)
-	e.stop = true
+	e.stop, e.violated = true, true
 }
 
 // proto is the protocol family of the client ("rest" / "blip"): recognised shapes do not depend on V3/V4.
 func (e *c13Env) proto() string {
-	if e.blip != nil {
+	if e.part == "blip" {
 		return "blip"
 	}
 	return "rest"
@@ -1274,7 +1427,11 @@ func (e *c13Env) validateModel() bool {
 		}
 	}
 	delete(got, "!")
+	// the all-documents channel is judged by the direct reads below (the admin view does not list it for every
+	// way of holding it)
+	delete(got, c13Star)
 	want := e.m.userChannels(e.chans)
+	sort.Strings(want)
 	if c13JSON(c13Keys(got)) != c13JSON(want) {
 		e.run.Inconclusive("access model disagrees with the admin view of the user's channels")
 		e.run.Note("history %d (%s): model channels %v, admin view %v; ops=%s", e.idx, e.part, want, c13Keys(got), c13JSON(e.ops))
@@ -1354,7 +1511,7 @@ func (e *c13Env) pull(r *vlib.Rand) {
 	var obs *c13PullObs
 	var ok bool
 	limit := 0
-	if e.blip != nil {
+	if e.part == "blip" {
 		obs, ok = e.blipPull()
 	} else {
 		limit = r.Intn(3)
@@ -1383,22 +1540,38 @@ func c13History(t *testing.T, run *vlib.Run, rt *RestTester, part string, idx in
 		return
 	}
 	if part == "blip" {
-		if !e.openBlip(idx%2 == 1) {
-			return
+		e.blipV4 = idx%2 == 1
+		e.cl.Name = "blip-v3"
+		if e.blipV4 {
+			e.cl.Name, e.cl.UseCV = "blip-v4", true
 		}
-		defer e.closeBlip()
 	}
 	pull := func() { e.pull(r) }
 	pull() // the client starts with a copy
 	if idx < c13Scripted {
 		e.scripted(r, idx, pull)
 	}
-	for i := 0; i < nops && !e.stop; i++ {
-		if r.Chance(1, 4) && e.opsSincePull > 0 {
+	for i := 0; i < nops; i++ {
+		isPull := r.Chance(1, 4) && e.opsSincePull > 0
+		switch {
+		case e.stop && e.violated:
+			// the replica and the resume position are off after a violation: later pulls are not judged (and the
+			// remaining operations are not executed)
+			if isPull {
+				run.Count("pulls_not_judged_after_first_violation", 1)
+				e.opsSincePull = 0
+			} else {
+				e.opsSincePull++
+			}
+		case e.stop:
+		case isPull:
 			pull()
-		} else {
+		default:
 			e.randomOp(r)
 		}
+	}
+	if e.violated {
+		run.Count("pulls_not_judged_after_first_violation", 1)
 	}
 	pull()
 	if e.stop {
@@ -1452,7 +1625,7 @@ func c13Run(t *testing.T, part string) {
 			for b := range next {
 				rt := NewRestTester(t, &RestTesterConfig{SyncFn: c13SyncFn})
 				for i := b[0]; i < b[1]; i++ {
-					c13History(t, run, rt, part, i, nops, (b[0]/perDB)%2 == 0, sampleAll || i == 0 || i == c13Scripted)
+					c13History(t, run, rt, part, i, nops, true, sampleAll || i == 0 || i == c13Scripted)
 				}
 				rt.Close()
 			}
